@@ -318,3 +318,143 @@ def run_traces(rep, pid, tier, rnd, budget):
             rep.sample({"meta": meta[(n, d)][0], "trace_events": [e["e"] for e in traces[0]],
                         "first_step": traces[0][1] if len(traces[0]) > 2 else None})
     rep.extra["known_deviation_steps_in_real_fits"] = devs
+
+
+# ---------------------------------------------------------------------------------------------------------------
+# spec -> code: the bookkeeping of Kauri.fit under a scripted search (spec/KauriGlue.tla)
+def glue_scripts(n, d, v, datasets, num, seed=SEED, steer=True, timeout=900):
+    """Random behaviours of KauriGlue (tlc -simulate): each is a dataset, a kernel, parameters and a script of answers."""
+    codes = set()
+    for x in datasets:
+        digits = [val for row in x for val in row]
+        assert len(digits) == n * d and all(0 <= val <= v for val in digits)
+        codes.add(sum(val * (v + 1) ** i for i, val in enumerate(digits)))
+    r = tlc.run("KauriGlue", tlc.cfg(constants=dict(N=n, D=d, V=v, STEER=steer, XCODES=codes),
+                                     invariants=["Emit", "GlueLimits", "GlueTreeShape", "GlueRouting"]),
+                simulate=f"num={num}", depth=2 * n + 4, seed=seed + 11, timeout=timeout)
+    if r.violated:
+        raise MachineryError(f"KauriGlue: spec-internal invariant {r.violated} violated\n{r.trace[:1500]}")
+    seen, out = set(), []
+    for p in r.prints:
+        key = json.dumps([p["X"], p["kn"], p["par"], [[h["leaf"], h["f"], h["th"], h["lt"], h["rt"]] for h in p["hist"]]])
+        if key not in seen:
+            seen.add(key)
+            out.append(p)
+    return r, out
+
+
+def replay_script(case, variant="compiled", model=None):
+    """Drive the real Kauri.fit with the scripted answers of one KauriGlue behaviour.  Returns (problems, model) where a problem
+    is (owner, tag, text): owner C08 = what the next search is told / what is stored about the gains and the clusters,
+    owner C09 = the explorable leaves, the tree table, leaves_ and routing."""
+    from gemclus.tree import Kauri
+    mod = dict(build.variants())[variant]
+    X = np.asarray(case["X"], dtype=np.float64)
+    K = np.asarray(case["K"], dtype=np.float64)
+    n, L, par, hist = len(X), case["L"], case["par"], case["hist"]
+    params = dict(max_clusters=par["kmax"], max_depth=par["maxdepth"], min_samples_split=par["minsplit"],
+                  min_samples_leaf=par["minleaf"], max_features=par["maxfeat"], max_leaves=par["maxleaves"], kernel="precomputed")
+    if model is None:
+        model = Kauri(**params)
+    else:
+        model.set_params(**params)
+    problems, calls = [], [0]
+
+    def bad(owner, tag, text):
+        problems.append((owner, tag, f"search #{calls[0]}: {text}"))
+
+    with build.kauri_with(mod) as kk:
+        real = kk.find_best_split
+
+        def script(kernel, Xa, leaves, Y, Z, n_clusters, K_max, n_leaves, min_leaf, feats):
+            i = calls[0]
+            calls[0] += 1
+            if i >= len(hist):
+                bad("C09", "extra-search", f"the loop searches again although the specification has finished ({len(hist)} searches)")
+                return mod.Split(0.0, 0, 0, 0, 0, 0.0, False)
+            h = hist[i]
+            Y, Z = np.asarray(Y), np.asarray(Z)
+            nl = int(n_leaves)
+            if (int(n_clusters), nl, int(K_max), int(min_leaf)) != (h["nC"], h["nL"], par["kmax"], par["minleaf"]):
+                bad("C08", "counters", f"n_clusters, n_leaves, K_max, min_leaf = {(int(n_clusters), nl, int(K_max), int(min_leaf))}; "
+                                       f"specification {(h['nC'], h['nL'], par['kmax'], par['minleaf'])}")
+            if sorted(int(v) for v in leaves) != sorted(h["expl"]):
+                bad("C09", "explorable", f"leaves to explore {sorted(int(v) for v in leaves)}; specification {sorted(h['expl'])}")
+            if sorted(int(f) for f in feats) != list(range(X.shape[1])):
+                bad("C09", "features", f"features drawn {sorted(int(f) for f in feats)} with max_features = n_features")
+            if nl == h["nL"]:
+                leaf_of = [sorted(np.flatnonzero(Z[:, s] == 1).tolist()) for s in range(n)]
+                if any(len(l) != 1 for l in leaf_of) or [l[0] for l in leaf_of] != h["before"]["leafOf"] or Z[nl:].any():
+                    bad("C08", "Z", f"sample -> leaf matrix says {leaf_of}; specification {h['before']['leafOf']}")
+                cl_of = [sorted(np.flatnonzero(Y[:, j] == 1).tolist()) for j in range(nl)]
+                if any(len(c) != 1 for c in cl_of) or [c[0] for c in cl_of] != h["before"]["clOf"] or Y[:, nl:].any() \
+                        or np.any((Y != 0) & (Y != 1)):
+                    bad("C08", "Y", f"leaf -> cluster matrix says {cl_of} (unused columns: {Y[:, nl:].sum()}); specification "
+                                    f"{h['before']['clOf']} after the steps {[(g['kind'], g['leaf'], g['lt'], g['rt']) for g in hist[:i]]}")
+            if h["kind"] == "stop":
+                return mod.Split(0.0, 0, 0, 0, 0, 0.0, False)
+            return mod.Split(float(h["gain"]) / L, h["leaf"], h["lt"], h["rt"], h["f"] - 1, float(h["th"]), False)
+        kk.find_best_split = script
+        try:
+            model.fit(X, K)
+        except Exception as e:
+            bad("C09", "raises", f"fit raised {type(e).__name__}: {e}")
+            return problems, None
+        finally:
+            kk.find_best_split = real
+    if calls[0] < len(hist):
+        problems.append(("C09", "stops-early", f"the loop ended after {calls[0]} searches; the specification goes on: next explorable "
+                                              f"leaves {hist[calls[0]]['expl']}, {hist[calls[0]]['nL']} leaves of {par['maxleaves']}"))
+        return problems, model
+    t = model.tree_
+    spec_tree = case["tree"]
+    got = dict(left=[int(v) for v in t.children_left], right=[int(v) for v in t.children_right],
+               f=[-1 if f is None else int(f) + 1 for f in t.features], th=[-1 if v is None else int(round(float(v))) for v in t.thresholds],
+               target=[int(v) for v in t.target], depth=[int(v) for v in t.depths])
+    want = {k: [nd[k] for nd in spec_tree] for k in got}
+    if got != want:
+        diff = [k for k in got if got[k] != want[k]]
+        problems.append(("C09", "tree-" + "-".join(diff), f"tree table differs in {diff}: code { {k: got[k] for k in diff} } specification { {k: want[k] for k in diff} }"))
+    gains = [float(g) for g in t.gains]
+    wg = [nd["gain"] / L for nd in spec_tree]
+    if len(gains) != len(wg) or any(abs(a - b) > 1e-9 * max(1.0, abs(b)) for a, b in zip(gains, wg)):
+        problems.append(("C08", "stored-gains", f"gains stored in the tree {gains}; answers of the search {wg}"))
+    if [int(v) for v in model.labels_] != case["labels"]:
+        problems.append(("C08", "labels", f"labels_ {model.labels_.tolist()}; specification {case['labels']} (leaf -> cluster {case['final']['clOf']})"))
+    if [int(v) for v in model.leaves_] != case["final"]["leafOf"]:
+        problems.append(("C09", "leaves", f"leaves_ {model.leaves_.tolist()}; specification {case['final']['leafOf']}"))
+    pred = [int(v) for v in model.predict(X)]
+    if pred != case["labels"]:
+        problems.append(("C09", "routing", f"predict(X) {pred}; specification {case['labels']}"))
+    sc = float(model.score(X, K))
+    if abs(sc - case["obj"] / L) > 1e-9 * max(1.0, abs(case["obj"] / L)):
+        problems.append(("C08", "score", f"score(X) {sc}; objective of the specification's partition {case['obj'] / L}"))
+    return problems, model
+
+
+def run_glue(rep, pid, tier, rnd):
+    """KauriGlue behaviours replayed into Kauri.fit (both execution variants only differ by the Split class here: compiled)."""
+    confs = [(6, 1, 5, 40), (7, 1, 6, 40), (5, 2, 2, 20)] if tier == "quick" else [(5, 1, 4, 600), (6, 1, 5, 600), (7, 1, 6, 600), (5, 2, 2, 400), (6, 2, 2, 300)]
+    kinds = collections.Counter()
+    for (n, d, v, num) in confs:
+        ds = [[[i] * d for i in range(min(n, v + 1))] + [[rnd.randint(0, v)] * d for _ in range(n - min(n, v + 1))],
+              [[(i * 3 + f) % (v + 1) for f in range(d)] for i in range(n)]]
+        ds += [[[rnd.randint(0, v) for _ in range(d)] for _ in range(n)] for _ in range(3)]
+        r, cases = glue_scripts(n, d, v, ds, num)
+        rep.add_tlc("KauriGlue", r, note=f"N={n} D={d} V={v} simulate num={num}/worker: {len(cases)} distinct scripts")
+        model = None
+        for c in cases:
+            for h in c["hist"]:
+                kinds[h["kind"] + ("" if h["stay"] else "/both-children-leave")] += 1
+            problems, model = replay_script(c, model=model)
+            rep.case(("glue", c["X"], c["kn"], c["par"], [(h["leaf"], h["f"], h["th"], h["lt"], h["rt"]) for h in c["hist"]]),
+                     nontrivial=len(c["hist"]) > 1)
+            for owner, tag, text in problems:
+                if owner == pid:
+                    rep.violation(f"Kauri.fit with a scripted search does not follow KauriGlue: {text}; X={c['X']} kernel={c['kn']} "
+                                  f"parameters={c['par']}", {"glue_case": c, "problem": [owner, tag, text]}, tags=("glue", tag))
+                    break
+    rep.extra["glue_steps_by_kind"] = dict(kinds)
+    for k in ("star", "switch", "dstar/both-children-leave", "realloc/both-children-leave"):
+        if not kinds.get(k):
+            raise MachineryError(f"KauriGlue scripts never contained a {k} step: the replay would be vacuous for it")
